@@ -133,6 +133,7 @@ pub fn run(ctx: &Ctx) -> i32 {
         random_per_enc: ctx.n(3_000, 100_000),
         profile: Profile { max_tokens: ctx.tier.pick(10, 40), small_caps_weight: 128, queries: false, exact_queries: false, modes: &hist::ALL_MODES, sinks: &[Sink::Utf8, Sink::Utf16], bom_prefix_weight: 48 },
         fills: vec![0xA5],
+        mixed_sinks: false,
     };
     let mut st = dech::run_dec_check(ctx, &dc);
     if !fw::should_stop() {
